@@ -668,7 +668,11 @@ fn workloads(thorough: bool, recv_size: usize, send_size: usize) -> Vec<Workload
   // first, while the backend has seen nothing else: ordering under back-pressure is timing sensitive
   w.push(Workload::SlowConsumer { n: if thorough { 10_000 } else { 4000 }, rcvhwm: 4 });
   if thorough {
-    w.push(Workload::SlowConsumer { n: 1500, rcvhwm: 1 });
+    // RCVHWM=1 stalls the io_uring receiver for good (open finding): one small cell in the first pool
+    // configuration records it; every variant spends its 60 s limit twice on it
+    if recv_size == 65536 && send_size == 65536 {
+      w.push(Workload::SlowConsumer { n: 300, rcvhwm: 1 });
+    }
     w.push(Workload::SlowConsumer { n: 5000, rcvhwm: 64 });
   }
   let sides: Vec<u8> = if thorough { vec![0, 1, 2] } else { vec![2] };
@@ -765,10 +769,12 @@ fn main() {
     println!("{}", json!({"event": "begin", "workload": format!("{:?}", w).chars().take(90).collect::<String>(), "variant": v.name()}));
     let _ = std::io::Write::flush(&mut std::io::stdout());
     let w2 = w.clone();
-    let r = rt.block_on(async { tokio::spawn(async move { tokio::time::timeout(Duration::from_secs(60), run_workload(&w2, v)).await }).await });
+    // (the RCVHWM=1 cell is known to stall: 20 s are plenty for 600 tiny messages, the default backend needs under 2 s)
+    let limit = if matches!(w, Workload::SlowConsumer { rcvhwm: 1, .. }) { 20 } else { 60 };
+    let r = rt.block_on(async { tokio::spawn(async move { tokio::time::timeout(Duration::from_secs(limit), run_workload(&w2, v)).await }).await });
     match r {
       Ok(Ok(v)) => Ok(v),
-      Ok(Err(_)) => Err("workload did not finish within 60 s".to_string()),
+      Ok(Err(_)) => Err(format!("workload did not finish within {} s", limit)),
       Err(_) => Err("workload panicked".to_string()),
     }
   };
@@ -796,6 +802,7 @@ fn main() {
       let kind = wname.split(|c: char| !c.is_alphanumeric()).next().unwrap_or("").to_string();
       let detail_of = |w: &Workload| match w {
         Workload::RawFault { fault } => format!("{}:{}", kind, fault),
+        Workload::SlowConsumer { rcvhwm, .. } if *rcvhwm != 4 => format!("{}:rcvhwm{}", kind, rcvhwm),
         Workload::Stream { side, multipart, .. } => format!("{}:side{}{}", kind, side, if *multipart { ":multipart" } else { "" }),
         Workload::Echo { side, .. } | Workload::ReqRep { side, .. } | Workload::PubSub { side } | Workload::Backpressure { side, .. } | Workload::LargeBurst { side, .. } => format!("{}:side{}", kind, side),
         _ => kind.clone(),
